@@ -20,6 +20,7 @@ FIELD_TAINT = {
 TAINT_CALLS = {"text_inside_pair", "clean_inside_pair", "clean_string", "clean_string_from_range", "clean_string_from_token",
                "my_strndup", "my_strdup", "get_fence_language_specifier", "extract_metadata", "url_accept",
                "d_string_copy_substring", "mmd_engine_metavalue_for_key", "xml_extract_named_attribute", "strstr", "strchr",
+               "strrchr", "strpbrk", "strtok", "strdup", "strndup", "memchr", "basename",
                "correct_dimension_units"}
 SAFE_CALLS = {"label_from_string", "label_from_token", "label_from_header", "uuid_new", "Translate", "label_from_attributes"}
 ESCAPERS = {"mmd_print_string_latex", "mmd_print_char_latex", "mmd_print_string_html", "mmd_print_char_html", "mmd_print_string_opendocument", "mmd_print_char_opendocument",
@@ -376,6 +377,24 @@ def r_rawtoken(P, chk):
                 chk.violation(rid, "rawtoken:%s:%s" % (f.name, name), f.where(raw),
                               "%s prints the raw source text of a %s token, whose lexeme contains a reserved character (%s renders "
                               "it as an entity): ill-formed XML inside code / math" % (f.name, name, reserved[name][0]))
+    # a PAIR_* token spans arbitrary child text.  OpenDocument has no raw pass-through of source markup (HTML has: raw HTML,
+    # comments), so its main dispatcher must never print the source text of a pair: the children have to go through the dispatcher
+    main = [f for f in funcs if f.name == "mmd_export_token_opendocument"]
+    if not main:
+        raise AnalysisBroken("mmd_export_token_opendocument not found")
+    npair = 0
+    for name in sorted(tt):
+        if not name.startswith("PAIR_"):
+            continue
+        lits, raw = effects[(main[0].name, name)]
+        npair += 1
+        chk.obligation(rid, "%s x %s: %s" % (main[0].name, name, "children exported" if raw is None else "RAW text of the whole pair"),
+                       raw is None, sample=(npair % 11 == 0))
+        if raw is not None:
+            chk.violation(rid, "rawpair:%s:%s" % (main[0].name, name), main[0].where(raw),
+                          "%s prints the raw source text of a %s token: the pair spans arbitrary document text (`{=<b>&}`), so "
+                          "<, > and & reach the XML unescaped" % (main[0].name, name))
+    chk.floor(rid, npair, 30, "pair token types")
     chk.analysed[rid] = {"reserved_types": sorted(reserved), "dispatchers": [f.name for f in funcs]}
 
 
@@ -720,3 +739,71 @@ def r_eraseguard(P, chk):
                               "where something else was written last (e.g. a `<th>` instead of `<p>`) it cuts that markup in half" % (
                                   f.name, cnt, d))
     chk.floor(rid, n, 2, "fixed-length suffix erasures in the writers")
+    # closer flags: a field F with `if (X->F) { ... print "</tag>" ... }` governs whether a closing tag is written.  Clearing it
+    # is only sound where the opening tag was taken back, i.e. on a path through one of the guarded erasures above.
+    nflag = 0
+    for unit in sorted(set(XML_UNITS)):
+        fs = [f for f in P.all_funcs if P.first_party(f) and f.unit.base == unit]
+        flags = {}
+        for f in fs:
+            cands = set()
+            for x in f.walk():
+                if x["k"] == "IfStmt" and x.get("c"):
+                    c0 = strip(x["c"][0])
+                    if c0 is not None and c0["k"] == "UnaryOperator" and c0["op"] == "!":
+                        c0 = strip(c0["c"][0])
+                    if c0 is not None and c0["k"] == "MemberExpr":
+                        cands.add(c0["n"])
+            if not cands:
+                continue
+            pos = f.cfg.positions()
+            prints = []          # (block, literal) of every string literal handed to an output call
+            for y in f.walk():
+                if y["k"] == "StringLiteral" and y.get("s"):
+                    z = y
+                    while z is not None and z.get("i") not in pos:
+                        z = f.parent(z)
+                    if z is not None:
+                        prints.append((pos[z["i"]][0], y["s"], z))
+            if not any(l.startswith("</") for _, l, _ in prints):
+                continue
+            for fld in sorted(cands):
+                def mk(val, fld=fld):
+                    def decide(t_):
+                        t2 = strip(t_)
+                        if t2 is None:
+                            return None
+                        if t2["k"] == "UnaryOperator" and t2["op"] == "!":
+                            r_ = decide(t2["c"][0])
+                            return None if r_ is None else not r_
+                        if t2["k"] == "MemberExpr" and t2["n"] == fld:
+                            return val
+                        return None
+                    return decide
+                on = edpe_blocks(f, "?none", 0, extra_decide=mk(True))
+                off = edpe_blocks(f, "?none", 0, extra_decide=mk(False))
+                only_on = [(l, z) for b, l, z in prints if b in on and b not in off]
+                only_off = [(l, z) for b, l, z in prints if b in off and b not in on]
+                closers = [(l, z) for l, z in only_on if l.startswith("</")]
+                # the field suppresses a closing tag if with it set a `</tag>` is printed that is not printed with it clear, and
+                # nothing is printed instead (a field with a printing alternative - </th> or </td> - selects, it does not suppress)
+                if closers and not only_off:
+                    flags.setdefault(fld, (f.where(closers[0][1]), closers[0][0].strip()))
+        for f in fs:
+            pos = f.cfg.positions()
+            erases = [c for c in f.calls("d_string_erase") if c.get("i") in pos]
+            for x in f.walk():
+                if x["k"] != "BinaryOperator" or x["op"] != "=":
+                    continue
+                l = strip(x["c"][0])
+                if l is None or l["k"] != "MemberExpr" or l["n"] not in flags or const_value(x["c"][1]) != 0:
+                    continue
+                nflag += 1
+                ok = x.get("i") in pos and any(f.cfg.dominates(e["i"], x["i"]) for e in erases)
+                chk.obligation(rid, "%s %s: `%s = false` (suppresses %s, tested at %s) is dominated by an erasure of the opening tag" % (
+                    f.where(x), f.name, key(x["c"][0]), flags[l["n"]][1], flags[l["n"]][0]), ok)
+                if not ok:
+                    chk.violation(rid, "closerflag:%s:%s:%s" % (f.base, f.name, l["n"]), f.where(x),
+                                  "%s clears `%s`, which suppresses the closing %s, on a path that has not taken the opening tag back "
+                                  "(no d_string_erase dominates the store): the element stays open" % (f.name, key(x["c"][0]), flags[l["n"]][1]))
+    chk.floor(rid, nflag, 1, "stores that clear a closing-tag flag in the XML writers")
